@@ -585,7 +585,6 @@ Section Center.
     eval_mx env (msubst (s_center n v) e) = eval_mx env' e.
   Proof.
     move=> h1 h2 h3 h4; rewrite msubst_mx; apply: eval_mx_ext => r c x.
-    have side : forall P : Prop, (P -> False) -> ~ P by [].
     rewrite /s_center.
     case: (PeanoNat.Nat.eq_dec x vK) => [->|nK].
       case: (PeanoNat.Nat.eq_dec r n) => [->|nr]; last first.
